@@ -303,7 +303,11 @@ impl World {
     }
     let terminal = *ch.pick("terminal_kind", &[Kind::Ts, Kind::Js, Kind::Missing, Kind::Error]);
     kinds[2 + len] = terminal;
-    let form = *ch.pick("form_of_the_import_of_the_head", &[Form::Import, Form::Dynamic, Form::ImportType]);
+    // ... or the head is the types dependency of a JavaScript root (`@ts-self-types`)
+    let form = *ch.pick("form_of_the_import_of_the_head", &[Form::Import, Form::Dynamic, Form::ImportType, Form::SelfTypes]);
+    if form == Form::SelfTypes {
+      kinds[0] = Kind::Js;
+    }
     let mut edges = vec![Edge { src: 0, form, dst: Target::Spec(2), aux: 0 }];
     // the second importer: not at all, or into the chain at hop k (k = len: the terminal itself)
     let enter = ch.shape("second_importer_enters_at", len + 2);
